@@ -11,6 +11,8 @@ structure ContOk (H : Heap) (c : Cont) : Prop where
   nodup : c.owned.Nodup
   /-- every block it refers to is live and was allocated by the manager the object holds now -/
   live : ∀ h ∈ c.owned, ∃ cell, H.get h = some cell ∧ c.mgr = some cell.mgr
+  /-- an object whose crew pointer is null holds nothing in its internal buffer either -/
+  nullInl : c.mgr = none → c.inl = []
 
 /-- well-formed world: no dangling handle, no manager mismatch, no block shared by two objects -/
 structure WF (w : World) : Prop where
@@ -36,7 +38,7 @@ theorem WF.owned_lt {w : World} (wf : WF w) {i : Nat} {c : Cont} (hc : w.objs i 
 
 theorem ContOk.of_agree {H H' : Heap} {c : Cont} (ok : ContOk H c)
     (ag : ∀ h ∈ c.owned, H'.get h = H.get h) : ContOk H' c :=
-  ⟨ok.nodup, fun h hh => by rw [ag h hh]; exact ok.live h hh⟩
+  ⟨ok.nodup, fun h hh => by rw [ag h hh]; exact ok.live h hh, ok.nullInl⟩
 
 theorem Frame.refl (w : World) (ws : List Nat) : Frame w w ws := fun _ _ => ⟨rfl, fun _ _ _ _ => rfl⟩
 
@@ -80,11 +82,13 @@ theorem WF.update_slot {w : World} (wf : WF w) (i : Nat) (c' : Cont) (H' : Heap)
     WF ⟨H', upd w.objs i (some c')⟩ ∧ Frame w ⟨H', upd w.objs i (some c')⟩ [i] := by
   refine ⟨⟨hfresh, ?_, ?_⟩, ?_⟩
   · intro x c hc
+    dsimp only at hc ⊢
     by_cases hx : x = i
     · subst hx; simp at hc; subst hc; exact hok
     · rw [upd_other _ _ hx] at hc
       exact (wf.ok x c hc).of_agree (hother x c hx hc)
   · intro x y c d hxy hc hd h hh
+    dsimp only at hc hd
     by_cases hx : x = i
     · subst hx; simp at hc; subst hc
       have hy : y ≠ x := fun e => hxy e.symm
@@ -107,11 +111,13 @@ theorem WF.kill_slot {w : World} (wf : WF w) (i : Nat) (H' : Heap)
     WF ⟨H', upd w.objs i none⟩ ∧ Frame w ⟨H', upd w.objs i none⟩ [i] := by
   refine ⟨⟨hfresh, ?_, ?_⟩, ?_⟩
   · intro x c hc
+    dsimp only at hc ⊢
     by_cases hx : x = i
     · subst hx; simp at hc
     · rw [upd_other _ _ hx] at hc
       exact (wf.ok x c hc).of_agree (hother x c hx hc)
   · intro x y c d hxy hc hd h hh
+    dsimp only at hc hd
     by_cases hx : x = i
     · subst hx; simp at hc
     · rw [upd_other _ _ hx] at hc
